@@ -4,6 +4,7 @@ import io
 import itertools
 import logging
 import os
+import re
 import shutil
 import tempfile
 from unittest import mock
@@ -175,6 +176,8 @@ def cli_scope(res, pid, rng, tier):
                 bad = "host bits outside 0-32 or different for the two families"
             elif not has("hostbits") and f["b4"] != "8":
                 bad = "default of 8 host bits not applied"
+            elif has("hostbits") and not re.fullmatch(r"\s*[+-]?\d+\s*", _effective(line, "hostbits") or ""):
+                bad = "a preserved-host-bits value that is not an integer was accepted"
             elif has("hostbits") and f["b4"] != str(int(_effective(line, "hostbits"))):
                 bad = "the number of preserved host bits given by the user is not the one applied"
             elif not has("prefixes") and f["prefixes"] != show_opt_l("0.0.0.0/1,128.0.0.0/2,192.0.0.0/3,224.0.0.0/4,10.0.0.0/8,172.16.0.0/12,192.168.0.0/16".split(",")):
@@ -188,11 +191,20 @@ def cli_scope(res, pid, rng, tier):
         elif out.startswith("err"):
             fails.append({"kind": "main raised something other than a usage error", "argv": meta["argv"], "config_file": meta["config_file"], "outcome": out})
     # every number of host bits 0..32 is accepted, from the command line and from the config file; 33 and -1 are not
-    for hb in list(range(0, 33)) + [33, -1]:
+    for hb in list(range(0, 33)) + [33, -1, "32.5", "32.01", "-0.5", "-0.99", "8.0", "1e1", " 8", "0x8", "8 "]:
         for src in "cf":
             argv, cfg, line = build({"input": ("c", ["in"]), "output": ("c", ["out"]), "ips": ("c", ["x"]), "salt": ("c", ["s1"]), "hostbits": (src, [str(hb)])})
             o_ = impl_outcome(argv, cfg)
             res.evaluations += 1
+            if isinstance(hb, str):
+                # not an integer in 0..32 as written: accepted only if Python's int() reads it as one (" 8", "8 "), then applied as that integer
+                try:
+                    iv = int(hb)
+                except ValueError:
+                    iv = None
+                if (iv is None and o_.startswith("call")) or (iv is not None and o_.startswith("call") and "b4=%d b6=%d" % (iv, iv) not in o_):
+                    fails.append({"kind": "preserved host bits: the value %r is accepted (as another number)" % hb, "argv": argv, "config_file": cfg, "outcome": o_})
+                continue
             if (0 <= hb <= 32) != o_.startswith("call") or (o_.startswith("call") and "b4=%d b6=%d" % (hb, hb) not in o_):
                 fails.append({"kind": "preserved host bits: %d is %s" % (hb, "rejected or not applied" if 0 <= hb <= 32 else "accepted"),
                               "argv": argv, "config_file": cfg, "outcome": o_})
@@ -209,6 +221,26 @@ def cli_scope(res, pid, rng, tier):
         if o1 != o2:
             fails.append({"kind": "an option behaves differently on the command line and in the config file", "argv": a1,
                           "config_file": c2, "outcome_cli": o1, "outcome_config": o2})
+    # real runs: --preserve-private-addresses gives the same files as listing the three networks, also next to other options
+    from .ip_checks import run_cli
+    body = "".join("ip host %s\n" % a for a in ("10.9.8.7", "172.16.5.4", "192.168.7.7", "11.11.3.4", "11.12.3.4", "9.8.7.6", "100.64.12.34", "100.100.3.17", "96.1.2.3",
+                                                "200.1.1.1", "8.8.8.8", "172.32.0.1", "192.169.0.1"))
+    for extra in ([], ["--preserve-addresses", "11.11.0.0/16"], ["--preserve-prefixes", "0.0.0.0/1"], ["--preserve-prefixes", "12.0.0.0/8", "--preserve-addresses", "9.8.0.0/16"]):
+        a1 = ["-a", "-s", "eq"] + extra + ["--preserve-private-addresses"]
+        lst = "10.0.0.0/8,172.16.0.0/12,192.168.0.0/16"
+        if "--preserve-addresses" in extra:
+            i_ = extra.index("--preserve-addresses")
+            a2 = ["-a", "-s", "eq"] + extra[:i_] + ["--preserve-addresses", extra[i_ + 1] + "," + lst] + extra[i_ + 2:]
+        else:
+            a2 = ["-a", "-s", "eq"] + extra + ["--preserve-addresses", lst]
+        s1, o1, _ = run_cli(a1, {"a.cfg": body})
+        s2, o2, _ = run_cli(a2, {"a.cfg": body})
+        res.evaluations += 2
+        if s1 != s2 or o1 != o2:
+            la, lb = (o1.get("a.cfg") or "").split("\n"), (o2.get("a.cfg") or "").split("\n")
+            k = next((i for i, (x, y) in enumerate(zip(la, lb)) if x != y), 0)
+            fails.append({"kind": "--preserve-private-addresses does not give the same output as listing the three RFC 1918 networks", "argv_flag": a1, "argv_listing": a2,
+                          "status": [s1, s2], "input_line": body.split("\n")[k], "with_flag": la[k] if k < len(la) else None, "with_listing": lb[k] if k < len(lb) else None})
     # real runs: rejected combinations and the no-option case write nothing
     for argv in (["-u"], ["-u", "-a", "-s", "x"], ["-d", "map"], ["-a", "--preserve-host-bits", "33"], [], ["-u", "-p"], ["-d", "map", "-p", "-u", "-s", "q"]):
         d = tempfile.mkdtemp(prefix="ncverif_")
